@@ -35,7 +35,9 @@ const Rule = "cases = (implementation, op sequence) drawn from VERIF_SEED, every
 	"only (both Models rebuild keys byte by byte), the binary trie with Put/Get/Delete/Size/Height only in the quick tier (one walk of the " +
 	"real code over a 64 KiB key takes a second); every slice a query returns is overwritten and appended to by the caller before the " +
 	"next op; all2 = All() run twice, nested inside another iteration, and through two pull iterators advanced alternately (one abandoned " +
-	"half-way); equalself = t.Equal(t); non-trivial = the history deletes (Delete/DeleteMin/DeleteMax) a " +
+	"half-way), with separately obtained sequences AND re-entrantly on ONE sequence value (for range seq nested in for range seq, two " +
+	"iter.Pull2 over the same value advanced in turn); hx Huge (thorough tier / witness search / enlarged budget): Patricia keys sharing " +
+	"2^17+1, 2^18, 2^20 leading bytes (oracle only); equalself = t.Equal(t); non-trivial = the history deletes (Delete/DeleteMin/DeleteMax) a " +
 	"held key that is a proper prefix or a proper extension of another held key; distinct = distinct (header, op list)"
 
 type kv struct {
@@ -511,6 +513,54 @@ func Exec(c hx.Case) hx.Result {
 						stop1()
 						if !sameList(l1, want) || !sameList(l2, want[:len(l2)]) || len(l2) != len(want)/2 {
 							bad(i, "", "two pull iterators over All() advanced alternately yield %v and (stopped half-way) %v, sorted map gives %v", l1, l2, want)
+						}
+						// re-entrancy on ONE sequence value: a run of `seq` nested inside the first, third, middle and last step of a
+						// run of the same `seq` (the last inner run abandoned after one step), and two pull iterators made from that same value
+						// advanced in turn — every run must yield the held pairs, whatever the other runs are doing
+						if res.BadOp < 0 {
+							var outerS []kv
+							okInner := true
+							for k, v := range seq {
+								outerS = append(outerS, kv{k, v})
+								if n := len(outerS); n == 1 || n == 3 || n == len(want)/2+1 || n == len(want) {
+									var in []kv
+									for k2, v2 := range seq {
+										in = append(in, kv{k2, v2})
+										if len(outerS) == len(want) {
+											break
+										}
+									}
+									if len(outerS) == len(want) {
+										okInner = okInner && sameList(in, want[:len(in)])
+									} else {
+										okInner = okInner && sameList(in, want)
+									}
+								}
+							}
+							if !sameList(outerS, want) || !okInner {
+								bad(i, "", "`for range seq` nested inside `for range seq` of the SAME sequence value: the outer run yields %v, sorted map gives %v (inner runs correct: %v)", outerS, want, okInner)
+							}
+							n1, s1 := iter.Pull2(seq)
+							n2, s2 := iter.Pull2(seq)
+							var p1, p2 []kv
+							for {
+								k1, v1, ok1 := n1()
+								if ok1 {
+									p1 = append(p1, kv{k1, v1})
+								}
+								k2, v2, ok2 := n2()
+								if ok2 {
+									p2 = append(p2, kv{k2, v2})
+								}
+								if !ok1 && !ok2 {
+									break
+								}
+							}
+							s1()
+							s2()
+							if !sameList(p1, want) || !sameList(p2, want) {
+								bad(i, "", "two pull iterators over the SAME sequence value advanced in turn yield %v and %v, sorted map gives %v", p1, p2, want)
+							}
 						}
 					}
 				case "equalself":
@@ -1767,6 +1817,29 @@ func sweeps(run *hx.Run) {
 		hdr := fmt.Sprintf("alpha=%s stream=nkeys n=%d", alpha, N)
 		one("binary", hdr, ops, false)
 		one("patricia", hdr, ops, true)
+	}
+	// ---- Patricia keys that agree on more than 2^17 leading bytes (first differing bit beyond position 2^20): too much
+	// text for every quick run (hx Huge: thorough tier, witness search, enlarged budget), oracle only. LongestPrefixOf
+	// is asked only where it answers at once (it looks up every prefix of its argument).
+	if run.Huge() {
+		for i, share := range []int{1<<17 + 1, 1 << 18, 1 << 20} {
+			al := alphabets[pickAlpha(i)]
+			b := make([]byte, share)
+			for j := range b {
+				b[j] = hx.Pick(r, al)
+			}
+			P := string(b)
+			x, y := string(al[0]), string(al[len(al)-1])
+			k1, k2, k3 := P+x, P+y, P+y+x
+			ops := []string{"put " + enc(k1) + " 1", "size", "put " + enc(k2) + " 2", "put " + enc(k3) + " 3", "size",
+				"get " + enc(k1), "get " + enc(k2), "get " + enc(k3), "get " + enc(P), "min", "max", "all", "all2",
+				"rank " + enc(k2), "floor " + enc(P+y), "ceiling " + enc(P), "select 1", "withprefix " + enc(P), "withprefix " + enc(P+y),
+				"match " + enc(P+"*"), "longestprefixof " + enc(k3), "rangesize " + enc(k1) + " " + enc(k3),
+				"delete " + enc(k2), "get " + enc(k2), "get " + enc(k3), "all", "put " + enc(P) + " 4", "get " + enc(P), "withprefix " + enc(P),
+				"deletemax", "deletemin", "all", "size"}
+			one("patricia", fmt.Sprintf("alpha=%s stream=sharedprefix share=%d", pickAlpha(i), share), ops, true)
+		}
+		run.Stats.Extra["huge"] = "Patricia trie: keys sharing 2^17+1, 2^18 and 2^20 leading bytes (oracle only)"
 	}
 	run.Stats.Extra["threshold_sweeps"] = fmt.Sprintf("key length L and number of keys N at 0/1/2, 63-65, 255-257, 1023-1025 and N=4096 (%d alphabets each), compared with the Models; "+
 		"%v-byte keys (oracle only), %v keys (binary trie vs Model, Patricia trie oracle only); each case holds L-1/L/L+1-byte keys that are prefixes of "+
